@@ -108,6 +108,23 @@ func PinAlphabet() []PinVariant {
 			p.ReplicationFactorMin, p.ReplicationFactorMax = -1, -1
 			return p
 		}},
+		{"meta(ref-undefined)", func(c cid.Cid) *api.Pin {
+			// the same undefined reference on a pin that is not a shard
+			p := api.PinCid(c)
+			p.Type = api.MetaType
+			undef := cid.Undef
+			p.Reference = &undef
+			p.MaxDepth = 0
+			p.ReplicationFactorMin, p.ReplicationFactorMax = -1, -1
+			return p
+		}},
+		{"data(ref-undefined)", func(c cid.Cid) *api.Pin {
+			p := api.PinCid(c)
+			undef := cid.Undef
+			p.Reference = &undef
+			p.ReplicationFactorMin, p.ReplicationFactorMax = -1, -1
+			return p
+		}},
 		{"update-v1", func(c cid.Cid) *api.Pin {
 			p := api.PinCid(c)
 			p.ReplicationFactorMin, p.ReplicationFactorMax = -1, -1
